@@ -115,6 +115,10 @@ fn enclosing_fn(at: &str) -> Option<String> {
         }
     }
     let name = name?;
+    // several sites of one function share the message: the ordinal of the site among the lines of the function that
+    // carry the message text (the reported line is the line of the `.expect(..)` / `panic!(..)` call)
+    let ordinal = lines[k..].iter().filter(|l| l.contains("Type system error")).count();
+    let name = if ordinal > 0 { format!("{name}#{ordinal}") } else { name };
     // a method: the nearest `impl … for Type` / `impl Type` above, unless a top-level block ended in between
     while k > 0 {
         k -= 1;
@@ -1165,6 +1169,16 @@ fn main() {
     }
     ctx.pipeline("type Query { a: A f: Int } type A { x: Int }", &["fragment F on A { nonexistent }".to_string(), "query Q { n: a { x } n: f }".to_string(), "{ a { x } }".to_string(), "query { ...Missing }".to_string()], "corpus");
 
+    // minimal representatives of the conditional-repeats family (the full family runs in the project stream)
+    for op in [
+        "query Q($a: Boolean!, $b: Boolean!) { me { ...F @include(if: $a) ...F @skip(if: $b) } }\nfragment F on User { id }",
+        "query Q($a: Boolean!, $b: Boolean!) { me { ...F @skip(if: $a) ...F @include(if: $b) } }\nfragment F on User { id }",
+        "query Q($a: Boolean!, $b: Boolean!) { me { ...F @include(if: $a) ... on User { ...F @include(if: $b) } } }\nfragment F on User { id }",
+        "query Q($a: Boolean!, $b: Boolean!) { me { ...F @skip(if: $a) ...G } }\nfragment F on User { id }\nfragment G on User { ...F @skip(if: $b) }",
+        "query Q($a: Boolean!, $b: Boolean!) { me { name @skip(if: $a) name @include(if: $b) ... on User @skip(if: $a) { id } ... on User @skip(if: $b) { id } } }",
+    ] {
+        ctx.pipeline(project::SCHEMA, &[op.to_string()], "corpus");
+    }
     let n_schemas = if search { 600 } else { args.budget(260, 1500) };
     let mut parse_batch: Vec<(&'static str, String, String)> = vec![];
     for i in 0..n_schemas {
